@@ -1,4 +1,5 @@
 import GufoSnmp.Props.C04
+import GufoSnmp.Props.C09
 import GufoSnmp.Model.PyClient
 /-!
 # C13 — engine discovery and time sync follow the agent
@@ -218,6 +219,133 @@ theorem refresh_flow (D : Digests) (C : Ciphers) (s : V3Session) (m : V3Msg) (pd
   exact ⟨(this.2.2 auth priv hk).1, this.1⟩
 
 /-! ## `refresh()` in the Python clients -/
+
+/-! ## Whole histories: sends, receives and key changes in any order -/
+
+/-- **C13.push_frame**: sending a request (successfully or not, encrypted or not) changes nothing of
+the USM state but the msgID and the privacy key's salt / buffer: engine id, boots, time, user name and
+authentication key stay as they were -/
+theorem push_frame (D : Digests) (C : Ciphers) (s : V3Session) (pdu : Pdu) (rawMsg : Int) (buf : Buf) :
+    (pushPduV3 D C s pdu rawMsg buf).1.engineId = s.engineId ∧
+    (pushPduV3 D C s pdu rawMsg buf).1.engineBoots = s.engineBoots ∧
+    (pushPduV3 D C s pdu rawMsg buf).1.engineTime = s.engineTime ∧
+    (pushPduV3 D C s pdu rawMsg buf).1.userName = s.userName ∧
+    (pushPduV3 D C s pdu rawMsg buf).1.authKey = s.authKey := by
+  unfold pushPduV3
+  cases hp : s.privKey.hasPriv with
+  | false => simp only [Bool.false_eq_true, if_false, and_self]
+  | true =>
+    simp only [if_true]
+    cases he : s.privKey.encrypt C ⟨s.engineId, pdu⟩ (asU32 s.engineBoots) (asU32 s.engineTime) with
+    | mk pk' r =>
+      cases r with
+      | ok x => obtain ⟨ct, pp⟩ := x; exact ⟨rfl, rfl, rfl, rfl, rfl⟩
+      | err e => exact ⟨rfl, rfl, rfl, rfl, rfl⟩
+      | panic w => exact ⟨rfl, rfl, rfl, rfl, rfl⟩
+
+/-- `set_keys` never touches the engine id or the clock -/
+theorem setKeys_frame (D : Digests) (s : V3Session) (user : Bytes) (aa : Nat) (ak : Bytes) (pa : Nat) (pk : Bytes)
+    (seed : Nat) :
+    (s.setKeys D user aa ak pa pk seed).1.engineId = s.engineId ∧
+    (s.setKeys D user aa ak pa pk seed).1.engineBoots = s.engineBoots ∧
+    (s.setKeys D user aa ak pa pk seed).1.engineTime = s.engineTime := by
+  unfold V3Session.setKeys
+  simp only
+  cases v3Keys D s.engineId aa ak pa pk seed with
+  | ok r => obtain ⟨a, p⟩ := r; exact ⟨rfl, rfl, rfl⟩
+  | err e => exact ⟨rfl, rfl, rfl⟩
+  | panic w => exact ⟨rfl, rfl, rfl⟩
+
+/-- what can happen to a v3 session -/
+inductive HEv where
+  | push (pdu : Pdu) (rawMsg : Int) (buf : Buf)
+  | recv (m : V3Msg)
+  | setKeys (user : Bytes) (aa : Nat) (ak : Bytes) (pa : Nat) (pk : Bytes) (seed : Nat)
+
+def hstep (D : Digests) (C : Ciphers) (s : V3Session) : HEv → V3Session
+  | .push pdu rawMsg buf => (pushPduV3 D C s pdu rawMsg buf).1
+  | .recv m => (unwrapV3 C s m).1
+  | .setKeys user aa ak pa pk seed => (s.setKeys D user aa ak pa pk seed).1
+
+def hrun (D : Digests) (C : Ciphers) : V3Session → List HEv → V3Session
+  | s, [] => s
+  | s, e :: rest => hrun D C (hstep D C s e) rest
+
+/-- the clock the session should hold: that of the most recent message it accepted -/
+def lastClock (D : Digests) (C : Ciphers) : V3Session → List HEv → Int × Int
+  | s, [] => (s.engineBoots, s.engineTime)
+  | s, e :: rest => lastClock D C (hstep D C s e) rest
+
+/-- was the message accepted (delivered to the caller) by the session in this state? -/
+def accepted (C : Ciphers) (s : V3Session) (m : V3Msg) : Prop := ∃ pdu, (unwrapV3 C s m).2 = .ok (some pdu)
+
+open Classical in
+/-- **C13.step_clock**: one event: the clock changes only by accepting a message, and then to that
+message's msgAuthoritativeEngineBoots / Time -/
+theorem step_clock (D : Digests) (C : Ciphers) (s : V3Session) (e : HEv) :
+    ((hstep D C s e).engineBoots, (hstep D C s e).engineTime) =
+      match e with
+      | .recv m => if accepted C s m then (m.usm.engineBoots, m.usm.engineTime) else (s.engineBoots, s.engineTime)
+      | _ => (s.engineBoots, s.engineTime) := by
+  cases e with
+  | push pdu rawMsg buf =>
+    obtain ⟨_, h2, h3, _, _⟩ := push_frame D C s pdu rawMsg buf
+    simp only [hstep, h2, h3]
+  | setKeys user aa ak pa pk seed =>
+    obtain ⟨_, h2, h3⟩ := setKeys_frame D s user aa ak pa pk seed
+    simp only [hstep, h2, h3]
+  | recv m =>
+    simp only [hstep]
+    by_cases h : accepted C s m
+    · obtain ⟨pdu, hp⟩ := h
+      have := (time_sync C s m).1 pdu hp
+      unfold nextState at this
+      rw [if_pos (show accepted C s m from ⟨pdu, hp⟩), this.1, this.2]
+    · have := (time_sync C s m).2 (fun pdu hp => h ⟨pdu, hp⟩)
+      unfold nextState at this
+      rw [if_neg h, this.1, this.2]
+
+/-- **C13.engine_sticky_history**: over any history, once the engine id is known it is never replaced -/
+theorem engine_sticky_history (D : Digests) (C : Ciphers) : ∀ (evs : List HEv) (s : V3Session),
+    s.engineId ≠ [] → (hrun D C s evs).engineId = s.engineId
+  | [], _, _ => rfl
+  | e :: rest, s, h0 => by
+    have hstep_id : (hstep D C s e).engineId = s.engineId := by
+      cases e with
+      | push pdu rawMsg buf => exact (push_frame D C s pdu rawMsg buf).1
+      | setKeys user aa ak pa pk seed => exact (setKeys_frame D s user aa ak pa pk seed).1
+      | recv m => exact sticky C s m h0
+    simp only [hrun]
+    rw [engine_sticky_history D C rest _ (by rw [hstep_id]; exact h0), hstep_id]
+
+/-- **C13.key_sized_history**: over any history that starts from a constructed session, the
+authentication key always has its digest's length (what `C09.auth_wire` / `C03.wire_v3` assume) -/
+theorem key_sized_history (D : Digests) (C : Ciphers) : ∀ (evs : List HEv) (s : V3Session),
+    C09.Sized s.authKey → C09.Sized (hrun D C s evs).authKey
+  | [], _, h => h
+  | e :: rest, s, h => by
+    simp only [hrun]
+    apply key_sized_history D C rest
+    cases e with
+    | push pdu rawMsg buf => simp only [hstep]; rw [(push_frame D C s pdu rawMsg buf).2.2.2.2]; exact h
+    | setKeys user aa ak pa pk seed => exact C09.setKeys_sized D s user aa ak pa pk seed h
+    | recv m =>
+      simp only [hstep]
+      have := (unwrap_state C s m).2.2.2.1
+      unfold nextState at this
+      rw [this]; exact h
+
+/-- **C13.request_stamp_history**: the request built after any history carries the engine id the session
+holds, and the boots / time of the most recent accepted message (`step_clock` at every step) -/
+theorem request_stamp_history (D : Digests) (C : Ciphers) (s : V3Session) (evs : List HEv) (fr : Bool) (pp : Bytes)
+    (data : MsgData) :
+    (v3MsgOf (hrun D C s evs) fr pp data).usm.engineId = (hrun D C s evs).engineId ∧
+    ((v3MsgOf (hrun D C s evs) fr pp data).usm.engineBoots, (v3MsgOf (hrun D C s evs) fr pp data).usm.engineTime) =
+      lastClock D C s evs := by
+  refine ⟨rfl, ?_⟩
+  induction evs generalizing s with
+  | nil => rfl
+  | cons e rest ih => simp only [hrun, lastClock]; exact ih _
 
 /-- **C13.deferred_kept**: a discovery probe that is not answered leaves the session exactly as it was:
 the deferred user is still there for the next attempt -/
